@@ -12,9 +12,10 @@ CMD[extract_temp]="python3 $V/tools/refactor_extract_temp.py --fraction 0.5 \$(F
 CMD[insert_noop]="python3 $V/tools/refactor_insert_noop.py --fraction 0.15 \$(FILES_PY)"
 CMD[swap_independent]="python3 $V/tools/refactor_swap_independent.py --fraction 1.0 \$(FILES_PY)"
 CMD[commute]="python3 $V/tools/refactor_commute.py --fraction 0.6 \$(FILES_PY)"
+CMD[add_param]="python3 $V/tools/refactor_add_param.py dadi/Integration.py dadi/PhiManip.py dadi/Numerics.py dadi/Inference.py dadi/Misc.py dadi/Godambe.py dadi/LowPass/LowPass.py dadi/DFE/Cache1D_mod.py dadi/DFE/Cache2D_mod.py dadi/Demes/Demes.py dadi/Spectrum_mod.py"
 CMD[all_python]="python3 $V/tools/rename_locals.py \$(FILES_PY) && python3 $V/tools/refactor_commute.py --fraction 0.4 \$(FILES_PY) && python3 $V/tools/refactor_insert_noop.py --fraction 0.1 \$(FILES_PY) && python3 $V/tools/refactor_return_temp.py \$(FILES_PY)"
 rc_all=0
-for name in rename_locals rename_c_locals return_temp extract_temp insert_noop swap_independent commute all_python; do
+for name in rename_locals rename_c_locals return_temp extract_temp insert_noop swap_independent commute add_param all_python; do
   W=$OUT/wt_$name
   git -C /repo worktree add --detach $W HEAD >/dev/null 2>&1 || { echo "$name: worktree failed"; continue; }
   ( cd $W && eval "${CMD[$name]}" ) > $OUT/$name.refactor.log 2>&1
